@@ -36,3 +36,14 @@ void h_lemma_real(void)
   __CPROVER_assert(0, "vacuity canary");
 #endif
 }
+
+/* ---- radionuclide of the Interfile reader ---- */
+#include "K_radionuclide_ctor.c"
+#include "K_ifh_radionuclide.c"
+void h_K_radionuclide_ctor(void) { struct RN r; K_radionuclide_ctor(&r, nondet_int(), nondet_float(), nondet_float(), nondet_float(), nondet_int()); }
+void h_K_ifh_radionuclide(void)
+{
+  struct IFH* s;
+  g_db.name = nondet_int(); g_db.energy = nondet_float(); g_db.branching_ratio = nondet_float(); g_db.half_life = nondet_float(); g_db.modality = nondet_int();
+  K_ifh_radionuclide(s, nondet_bool());
+}
